@@ -581,6 +581,52 @@ func c07judgeLim(w *report.W, text string, limit time.Duration) c07outcome {
 	if d := docgen.Match(want, c07toN(&om)); d != "" {
 		return c07outcome{kind: "wrong-content", detail: "via UnmarshalYAML: " + d}
 	}
+	// the string-valued instantiation: when every top-level value is a string, yaml.Unmarshal into *ordered.MapSS
+	// (stand-alone and as a typed struct field) gives the same keys, values and order
+	allStr := want.K == docgen.KMap && len(want.Keys) > 0
+	for _, v := range want.Vals {
+		if v.K != docgen.KStr {
+			allStr = false
+		}
+	}
+	if allStr {
+		ssN := func(m *ordered.MapSS) *docgen.N {
+			out := &docgen.N{K: docgen.KMap}
+			if m != nil {
+				m.Range(func(k, v string) error {
+					out.Keys = append(out.Keys, k)
+					out.Vals = append(out.Vals, docgen.Str(v))
+					return nil
+				})
+			}
+			return out
+		}
+		var ss ordered.MapSS
+		var holder struct {
+			M *ordered.MapSS `yaml:"m"`
+		}
+		var e1, e2 error
+		indented := "m:\n  " + strings.ReplaceAll(strings.TrimRight(text, "\n"), "\n", "\n  ") + "\n"
+		if pan := report.Catch(func() {
+			e1 = yaml.Unmarshal([]byte(text), &ss)
+			e2 = yaml.Unmarshal([]byte(indented), &holder)
+		}); pan != "" {
+			return c07outcome{kind: "panic", detail: "yaml.Unmarshal into MapSS: " + pan}
+		}
+		if e1 != nil || e2 != nil {
+			return c07outcome{kind: "unexpected-error", detail: fmt.Sprintf("yaml.Unmarshal into MapSS: %v / as a struct field: %v", e1, e2)}
+		}
+		if d := docgen.Match(want, ssN(&ss)); d != "" {
+			return c07outcome{kind: "wrong-content", detail: "via UnmarshalYAML into *MapSS: " + d}
+		}
+		if d := docgen.Match(want, ssN(holder.M)); d != "" {
+			return c07outcome{kind: "wrong-content", detail: "via a *MapSS struct field: " + d}
+		}
+		if f := feats(); f != "" {
+			return c07outcome{class: "ok+MapSS:" + f}
+		}
+		return c07outcome{class: "ok+MapSS"}
+	}
 	if f := feats(); f != "" {
 		return c07outcome{class: "ok:" + f}
 	}
@@ -715,7 +761,7 @@ func init() {
 			"(names may be reused, i.e. redefined); mappings have explicit keys a, b with nested nodes, an alias-as-key entry and three merge slots (before, between, after the explicit keys), each merge an alias, " +
 			"a sequence of aliases in either order, a nested sequence, an inline mapping or a mix; aliases may point backwards, forwards (rejected by the YAML parser and skipped) or to enclosing nodes " +
 			"(self / mutual cycles through values, sequences, keys and merges); enumerated with <=4 (quick) / <=5 (thorough) deviations from a default document that already anchors, aliases and merges, plus 32 hand-written shapes (value cycles closing through values, sequences, keys and merges of anchored ancestors; quoted and tagged `<<` keys, which are ordinary keys) and layered merges of 2..80 layers (each layer merging the two before it / the one before it twice), which must decode within 90 s (they take milliseconds). " +
-			"ordered.DecodeYAML and yaml.Unmarshal into *ordered.MapSA are compared with a two-phase reference (pure per-mapping merge resolution, then containment-cycle detection and expansion) on " +
+			"ordered.DecodeYAML, yaml.Unmarshal into *ordered.MapSA and - for documents whose top-level values are all strings - into *ordered.MapSS (stand-alone and as a struct field) are compared with a two-phase reference (pure per-mapping merge resolution, then containment-cycle detection and expansion) on " +
 			"yaml.v3's node graph: content and order, independent copies (no shared mapping/sequence objects), value cycle => error, merge cycle tolerated, no panic / fatal crash / hang. " +
 			"Non-trivial = the document contains at least one alias and was compared in full (content, order, independence). Documents whose merge cycle runs through a sequence or several mappings, or that repeat an explicit key, are only checked for no panic / crash / hang.",
 		Assumptions: []string{
